@@ -6,3 +6,11 @@ import NormModel.Properties.C12
 #print axioms Norm.C12.bracket_spellings
 #print axioms Norm.C12.bracket_plain
 #print axioms Norm.C12.splice_between_tokens
+#print axioms Norm.C12.table_targets_mem
+#print axioms Norm.C12.table_targets
+#print axioms Norm.C12.respelled_reads_same
+#print axioms Norm.C12.operator_longest_match
+#print axioms Norm.C12.punctuator_token
+#print axioms Norm.C12.lex_respell
+#print axioms Norm.C12.toks_of_items
+#print axioms Norm.C12.tokens_respell
